@@ -13,4 +13,39 @@ trap 'rm -rf "$SCR"' EXIT
 ( cd /repo && go build -o "$SCR/yaccgo" ./yaccgo )
 # rewriter sanity: the repository's tests must pass under the overlay exactly as without it
 ( cd "$SCR" && mkdir -p t && cd /repo && go test -tags verif -overlay "$SCR/ov/overlay.json" -vet=off -count=1 ./... >"$SCR/overlay-tests.log" 2>&1 ) || { cat "$SCR/overlay-tests.log"; echo "setup: repository tests fail under the overlay"; exit 1; }
+# seed cache for the builds of generated parsers: the standard library packages a driver needs,
+# compiled normally and with the race detector, in a cache of their own (see harness/gen/batch.go)
+SEED=/verif/.cache/gendrv-seed
+rm -rf "$SEED"; mkdir -p "$SEED" "$SCR/seedmod/rt"
+cp harness/gen/rt/rt.go "$SCR/seedmod/rt/rt.go"
+printf 'module gendrv\n\ngo 1.18\n' > "$SCR/seedmod/go.mod"
+cat > "$SCR/seedmod/main.go" <<'EOS'
+package main
+
+import (
+	"bufio"
+	"encoding/json"
+	"fmt"
+	"io"
+	"os"
+	"sync"
+	"sync/atomic"
+	"time"
+
+	"gendrv/rt"
+)
+
+func main() {
+	var wg sync.WaitGroup
+	var n int64
+	atomic.AddInt64(&n, 1)
+	w := bufio.NewWriter(os.Stdout)
+	json.NewEncoder(w).Encode(rt.Result{})
+	fmt.Fprintln(io.Discard, time.Now(), rt.HS(1))
+	wg.Wait()
+	w.Flush()
+}
+EOS
+( cd "$SCR/seedmod" && GOCACHE="$SEED" go build -gcflags=-e -o "$SCR/seeddrv" . && GOCACHE="$SEED" CGO_ENABLED=1 go build -race -o "$SCR/seeddrv-race" . )
+du -sh "$SEED" | sed 's/^/seed cache: /'
 echo "setup ok"
